@@ -103,6 +103,14 @@ func NormalizeCheckParams(params ...any) *core.CheckParams {
 		if s, ok := p.Error.(string); ok {
 			return &core.CheckParams{Error: s}
 		}
+		if em, ok := utils.ToErrorMap(p.Error); ok {
+			return &core.CheckParams{ErrorMap: em}
+		}
+	default:
+		// a message function: func(core.ZodRawIssue) string or core.ZodErrorMap
+		if em, ok := utils.ToErrorMap(p); ok {
+			return &core.CheckParams{ErrorMap: em}
+		}
 	}
 
 	return nil
@@ -110,10 +118,15 @@ func NormalizeCheckParams(params ...any) *core.CheckParams {
 
 // ApplyCheckParams applies normalized parameters to a check definition.
 func ApplyCheckParams(def *core.ZodCheckDef, cp *core.CheckParams) {
-	if cp != nil && cp.Error != "" {
+	if cp == nil {
+		return
+	}
+	if cp.Error != "" {
 		def.Error = new(core.ZodErrorMap(func(_ core.ZodRawIssue) string {
 			return cp.Error
 		}))
+	} else if cp.ErrorMap != nil {
+		def.Error = cp.ErrorMap
 	}
 }
 
